@@ -146,6 +146,10 @@ func Install(t *Tape) {
 	}
 }
 
+// Reset makes the next Install re-claim crypto/rand.Reader and spg's hooks
+// (for checks that temporarily used their own reader).
+func Reset() { installed = false }
+
 // New makes a tape over a source.
 func New(src Source) *Tape { return &Tape{Src: src, off: 4} }
 
